@@ -342,8 +342,82 @@ def _desc(c, seed, rec, kind):
     )  # fmt: skip
 
 
+def object_walk_task(item):
+    """ONE Molecule object is carried along a path of the Cayley graph (its coordinates replaced in place by g.x), as a
+    user does who rotates a molecule he has already computed: scalars must stay what they were at the start of the
+    walk and vectors must follow the accumulated rotation, whatever the object remembers from earlier evaluations
+    (tracked orbitals, amplitudes, density)."""
+    import torch
+
+    name, method, exc, active, word, seed = item
+    base = M.apply(M.get(name), M.generic_rot(seed))
+    c = dict(mol=name, method=method, mode="analytical" if exc else "autodiff", exc=exc, active=active, uhf=False)
+    params = make_params(c)
+    molecule, es = sp.build([base], params)
+    molecule.verbose = False
+    if exc:
+        molecule.active_state = active
+    es(molecule)
+    norb = int(4 * molecule.nHeavy[0] + molecule.nHydro[0])  # e_mo is padded on the first evaluation only
+
+    def grab():
+        o = {"Etot": float(molecule.Etot[0]), "force": sp.to_np(molecule.force)[0], "e_mo": np.sort(sp.to_np(molecule.e_mo)[0][:norb])}
+        if exc:
+            o["cis"] = sp.to_np(molecule.cis_energies)[0]
+        return o
+
+    o0 = grab()
+    gens = {"a": np.array([[0.0, -1, 0], [1, 0, 0], [0, 0, 1]]), "b": np.array([[0.0, 0, 1], [1, 0, 0], [0, 1, 0]])}
+    Rtot = np.eye(3)
+    worst = {"Etot": 0.0, "cis": 0.0, "force": 0.0, "e_mo": 0.0}
+    where = {}
+    for i, g in enumerate(word):
+        Rtot = gens[g] @ Rtot
+        with torch.no_grad():
+            molecule.coordinates.copy_(torch.as_tensor(base["coords"] @ Rtot.T).unsqueeze(0))
+        es(molecule)
+        o = grab()
+        dev = {"Etot": abs(o["Etot"] - o0["Etot"]), "force": float(np.abs(o["force"] - o0["force"] @ Rtot.T).max()),
+               "e_mo": float(np.abs(o["e_mo"] - o0["e_mo"]).max())}  # fmt: skip
+        if exc:
+            dev["cis"] = float(np.abs(o["cis"] - o0["cis"]).max())
+        for k, v in dev.items():
+            if v > worst[k]:
+                worst[k], where[k] = v, word[: i + 1]
+    return {"worst": worst, "where": where}
+
+
+def object_walks(chk, tier, seed):
+    words = ["b", "bb", "ab", "ba", "abab", "bbab"] if tier == "quick" else ["b", "bb", "ab", "ba", "abab", "bbab", "aab", "abb", "babab", "aaaa"]
+    items = []
+    for w in words:
+        items.append(("H2CO", "AM1", "cis", 1, w, seed))
+        items.append(("H2O", "PM3", None, 0, w, seed))
+        items.append(("NH3", "AM1", "cis", 1, w, seed))
+        if tier != "quick":
+            items.append(("H2CO", "AM1", "rpa", 1, w, seed))
+    res = pmap(object_walk_task, items, chunk=1, timeout=1200, progress="C02 one object along Cayley-graph paths")
+    for it, r in zip(items, res):
+        key = f"object_walk|{it[0]}|{it[1]}|{it[2] or 'S0'}{it[3] or ''}|word={it[4]}"
+        d = dict(molecule=it[0], method=it[1], force_mode="analytical" if it[2] else "autodiff", excited=bool(it[2]), active_state=it[3], family="object_walk",
+                 state=it[4], frozen_x=False, pole_z=False, kind="scalar")  # fmt: skip
+        if is_error(r) or is_timeout(r):
+            chk.violation(dict(d, kind="exception"), f"{key}: {str(r)[:300]}", replay={"object_walk": list(it)})
+            continue
+        chk.case(key, nontrivial=True, outcome=f"{max(r['worst'].values()):.0e}")
+        chk.traces += 1
+        chk.transitions += len(it[4])
+        # measured on the healthy tree: Etot 3e-11, excitation energies 2e-9, orbital energies 1e-10, forces 4e-8
+        lim = {"Etot": 1e-8, "cis": 1e-7, "e_mo": 1e-7, "force": 1e-5}
+        for k, v in r["worst"].items():
+            if v > lim[k]:
+                chk.violation(dict(d, kind="scalar" if k != "force" else "force", observable=k, err=float(v)),
+                              f"{key}: {k} of the carried object is off by {v:.3e} from the group prediction after the word {r['where'].get(k)}", replay={"object_walk": list(it)})  # fmt: skip
+
+
 def run(chk, tier, seed):
     warm()  # import torch + seqm once in the parent; the forked children inherit them
+    object_walks(chk, tier, seed)
     C = cay()
     cfgs = configs(tier)
     tasks = []
@@ -477,6 +551,10 @@ def _dispatch(task):
 
 def replay(payload):
     r = payload["replay"]
+    if isinstance(r, dict) and r.get("object_walk"):
+        out = object_walk_task(tuple(r["object_walk"]))
+        print(out)
+        return out["worst"]["Etot"] <= 1e-8 and out["worst"]["cis"] <= 1e-7 and out["worst"]["force"] <= 1e-5
     c, seed, label = r["config"], r["seed"], r["label"]
     mol, states, _ = build_states(c["mol"], seed)
     params = make_params(c)
